@@ -155,6 +155,9 @@ def run(ctx, chk, tier="quick"):
                 return "x"
             if isinstance(node, ast.Name) and node.id in dom_names:
                 return dom_names[node.id]     # (first knot, last knot): Spline.domain is checked under C14.O3
+            if isinstance(node, ast.Subscript) and isinstance(node.value, ast.Call) and dotted_name(node.value.func) == "self.domain" \
+                    and not node.value.args and isinstance(node.slice, ast.Constant) and node.slice.value in (0, 1):
+                return ("xmin", "xmax")[node.slice.value]
             return None
 
         # every bound the argument is clamped against must be the first or the last knot
